@@ -161,14 +161,14 @@ def consistency(chk, name, kw, g, label):
         if hasattr(g, k) and isinstance(getattr(g, k), (int, float, np.floating)):
             want = math.radians(v) if k in ANGLE_KEYS else v
             have = float(getattr(g, k))
-            if abs(have - want) > 1e-12 * max(1.0, abs(want)):
+            if abs(have - want) > 1e-9 * max(1.0, abs(want)):      # given values may pass through a root finder (xtol 2e-12 on the angle) and back
                 return chk.fail('given-reproduced', f"{name}{kw} ({label}): given {k} = {want!r}, the groove reports {have!r}", data)
     # a flank given by width / height / length is measured on the contour between z4 and z3
     fw, fh = g.z3 - g.z4, g.y4 - g.y3
     for k, have in (('flank_width', fw), ('flank_height', fh), ('flank_length', math.hypot(fw, fh))):
         if k in kw and abs(have - kw[k]) > 1e-7 * size:
             return chk.fail('flank-reproduced', f"{name}{kw} ({label}): requested {k} = {kw[k]!r}, the flank between z4 and z3 measures {have!r}", data)
-    if 'flank_angle' in kw and abs(g.flank_angle - math.radians(kw['flank_angle'])) > 1e-12:
+    if 'flank_angle' in kw and abs(g.flank_angle - math.radians(kw['flank_angle'])) > 1e-9:
         return chk.fail('given-reproduced', f"{name}{kw} ({label}): flank angle not reproduced", data)
     if 'tip_depth' in kw or 'tip_angle' in kw:
         td = g.usable_width / 2 * math.tan(g.flank_angle)
